@@ -88,7 +88,9 @@ class StructTy(Ty):
 
     def s(self):
         if self.name:
-            return '%' + self.name
+            if re.fullmatch(r'[-a-zA-Z$._0-9]+', self.name):
+                return '%' + self.name
+            return '%"' + self.name + '"'
         body = ', '.join(f.s() for f in self.fields)
         return ('<{ %s }>' if self.packed else '{ %s }') % body
 
